@@ -161,6 +161,119 @@ def mapM' (f : α → R β) : List α → R (List β)
   | [] => pure []
   | a :: as => do let b ← f a; let bs ← mapM' f as; pure (b :: bs)
 
+/-! ### S-group data (`M  STY / SAL / SDT / SED / SMT`): Marvin's implicit-hydrogen annotation -/
+
+structure SDat where
+  type : Option Str := none
+  atoms : Option (List Int) := none
+  value : Option Str := none
+  deriving DecidableEq, Repr, Inhabited
+
+/-- `dat[k] = v` on an insertion-ordered dict -/
+def datSet (d : List (Int × SDat)) (k : Int) (v : SDat) : List (Int × SDat) :=
+  if d.any (·.1 == k) then d.map (fun kv => if kv.1 == k then (k, v) else kv) else d ++ [(k, v)]
+
+def datUpdate (d : List (Int × SDat)) (k : Int) (f : SDat → SDat) : List (Int × SDat) :=
+  d.map (fun kv => if kv.1 == k then (kv.1, f kv.2) else kv)
+
+def asciiLower (s : Str) : Str := s.map fun c => if 65 ≤ c.toNat && c.toNat ≤ 90 then Char.ofNat (c.toNat + 32) else c
+
+/-- whitespace split used by `line.split()` -/
+def wsTokens (s : Str) : List Str :=
+  let rec go : Str → List Str → Str → List Str
+    | [], acc, cur => if cur.isEmpty then acc else acc ++ [cur]
+    | c :: cs, acc, cur =>
+      if isSpace c then (if cur.isEmpty then go cs acc cur else go cs (acc ++ [cur]) []) else go cs acc (cur ++ [c])
+  go s [] []
+
+/-- the `for i in range(int(line[6:9]))` loop of an `M  STY` line -/
+def styLoop (line : Str) : Nat → Nat → List (Int × SDat) → R (List (Int × SDat))
+  | 0, _, d => pure d
+  | cnt + 1, i, d => do
+    let i8 := i * 8
+    let st := slice line (14 + i8) (17 + i8)
+    if st == "DAT".toList then do
+      let k ← intE (slice line (10 + i8) (13 + i8))
+      styLoop line cnt (i + 1) (datSet d k {})
+    else if st == "SUP".toList then do
+      let k ← intE (slice line (10 + i8) (13 + i8))
+      styLoop line cnt (i + 1) (datSet d k { type := some "MDL_SUP".toList })
+    else styLoop line cnt (i + 1) d
+
+/-- `tuple(int(line[14 + 4 * i:17 + 4 * i]) - 1 for i in range(n))` -/
+def salAtoms (line : Str) : Nat → Nat → R (List Int)
+  | 0, _ => pure []
+  | cnt + 1, i => do
+    let a ← intE (slice line (14 + 4 * i) (17 + 4 * i))
+    let r ← salAtoms line cnt (i + 1)
+    pure ((a - 1) :: r)
+
+/-- the property-block loop including S-group lines -/
+def parsePropsS : List Str → List PAtom → List (Int × SDat) → R (List PAtom × List (Int × SDat))
+  | [], atoms, d => pure (atoms, d)
+  | line :: rest, atoms, d =>
+    if startsWith line "M  END".toList then pure (atoms, d)
+    else if startsWith line "M  ALS".toList then throw .valueError
+    else if startsWith line "M  ISO".toList || startsWith line "M  RAD".toList || startsWith line "M  CHG".toList then do
+      let cnt ← intE (slice line 6 9)
+      let kind := (line[3]?).getD ' '
+      let atoms ← applyCtf kind line cnt.toNat 0 atoms
+      parsePropsS rest atoms d
+    else if startsWith line "M  STY".toList then do
+      let cnt ← intE (slice line 6 9)
+      let d ← styLoop line cnt.toNat 0 d
+      parsePropsS rest atoms d
+    else if startsWith line "M  SAL".toList then do
+      let i ← intE (slice line 7 10)
+      if d.any (·.1 == i) then do
+        let n ← intE (slice line 10 13)
+        let as ← salAtoms line n.toNat 0
+        parsePropsS rest atoms (datUpdate d i fun x => { x with atoms := some as })
+      else parsePropsS rest atoms d
+    else if startsWith line "M  SDT".toList then do
+      let i ← intE (slice line 7 10)
+      if d.any (·.1 == i) then
+        match (wsTokens line).getLast? with
+        | some t => parsePropsS rest atoms (datUpdate d i fun x => { x with type := some (asciiLower t) })
+        | none => throw .indexError
+      else parsePropsS rest atoms d
+    else if startsWith line "M  SED".toList then do
+      let i ← intE (slice line 7 10)
+      if d.any (·.1 == i) then
+        let v := asciiLower ((strip (line.drop 10)).filter (· != '/'))
+        parsePropsS rest atoms (datUpdate d i fun x => { x with value := some v })
+      else parsePropsS rest atoms d
+    else if startsWith line "M  SMT".toList then do
+      let i ← intE (slice line 7 10)
+      if d.any (·.1 == i) then
+        parsePropsS rest atoms (datUpdate d i fun x => { x with value := some (strip (line.drop 10)) })
+      else parsePropsS rest atoms d
+    else parsePropsS rest atoms d
+
+/-- the `for x in dat.values()` post-processing -/
+def applyDat : List (Int × SDat) → List PAtom → R (List PAtom)
+  | [], atoms => pure atoms
+  | (_, x) :: rest, atoms =>
+    match x.type with
+    | none => throw .invalidV2000
+    | some t =>
+      if t == "mrv_implicit_h".toList then
+        match x.atoms, x.value with
+        | some as, some v =>
+          if as.length != 1 || as.head? == some (-1) || v.isEmpty then throw .invalidV2000
+          else do
+            let h ← intE (v.drop 6)                    -- the right-hand side is evaluated before the subscript
+            match pyIndexNat atoms.length (as.headD 0) with
+            | some k => applyDat rest (setAt atoms k fun a => { a with implH := some h })
+            | none => throw .indexError
+        | _, _ => throw .invalidV2000
+      else applyDat rest atoms
+
+/-- does the property section (up to `M  END`) contain an S-group line? -/
+def hasSgroupLine : List Str → Bool
+  | [] => false
+  | l :: ls => if startsWith l "M  END".toList then false else sgroupPrefixes.any (startsWith l) || hasSgroupLine ls
+
 /-- `parse_mol_v2000(data)`; `data` = the lines of the block up to and including the first `M  END` -/
 def parseMol2000 (data : List Str) : R PMol := do
   let line ← lineAt data 3
@@ -172,7 +285,12 @@ def parseMol2000 (data : List Str) : R PMol := do
   let title := if t.isEmpty then none else some t
   let atoms ← mapM' parseAtomLine (pySlice data 4 (4 + atomsCount))
   let bl ← mapM' parseBondLine (pySlice data (4 + atomsCount) (4 + atomsCount + bondsCount))
-  let atoms ← parseProps (pySlice data (4 + atomsCount + bondsCount) (data.length : Int)) atoms
+  let propLines := pySlice data (4 + atomsCount + bondsCount) (data.length : Int)
+  -- one loop in the code; split here so that blocks without S-group lines keep the simple state
+  let atoms ← if hasSgroupLine propLines then do
+      let (atoms, d) ← parsePropsS propLines atoms []
+      applyDat d atoms
+    else parseProps propLines atoms
   pure { title, atoms, bonds := bl.map (·.1), stereo := bl.filterMap (·.2) }
 
 /-! ## `postprocess_parsed_molecule(data)` with `remap=False, ignore=True` -/
